@@ -52,7 +52,7 @@ def generate(tier):
                     # every subset of the other groups at the plain level
                     for r in range(1, len(hs) + 1):
                         for sub in itertools.combinations(hs, r):
-                            if tier == 'quick' and r not in (1, 2, len(hs)):
+                            if tier == 'quick' and (r not in (1, 2, len(hs)) or (r == 2 and (len(cg.key) + len(sub[0]) + len(sub[1])) % 3 == 0)):
                                 continue
                             # partner choice rotates with the subset size
                             cfgs = []
@@ -60,7 +60,7 @@ def generate(tier):
                                 hp = (h in K.PARTNER) and ((len(sub) + len(h)) % 2 == 0) and (h, True) in plain
                                 cfgs.append(plain[(h, hp)])
                             for order in ((0, 1) if r <= 1 else ((r + len(cg.key)) % 2,)):
-                                for split in (('one', 'each', 'onec') if r <= 1 else (('one', 'each', 'onec', 'eachc')[(r + order + len(sub[0])) % 4],)):
+                                for split in ((('one', 'each', 'onec') if order == 0 else ('one', 'each')) if r <= 1 else (('one', 'each', 'onec', 'eachc')[(r + order + len(sub[0])) % 4],)):
                                     yield (shape, g, partner, cg, cfgs, order, split)
                     # other traits with parameters of their own on the same fields: k <= 2 (thorough 3)
                     kmax = 2 if tier == 'quick' else 3
@@ -109,11 +109,10 @@ def check(v, tier, only=None):
             merged = K.merge([cg] + cfgs) if order == 0 else K.merge(cfgs + [cg])
             inputs.append(K.render(shape, merged, split))
         if new_alone:
-            ares.update(zip(new_alone, xp.expand_all(binary, [alone_src[k] for k in new_alone])))
-        res = xp.expand_all(binary, inputs)
+            ares.update(zip(new_alone, xp.expand_all(binary, [alone_src[k] for k in new_alone], noraw=True, hashbody=not only)))
+        res = xp.expand_all(binary, inputs, noraw=True, hashbody=not only)
         if not only and len(conf_inputs) < 60000:
             conf_inputs += [alone_src[k] for k in new_alone] + inputs[::7]
-            conf_res += [ares[k] for k in new_alone] + res[::7]
         for req, src, r in zip(reqs, inputs, res):
             (shape, g, partner, cg, cfgs, order, split) = req
             ak = (shape.code(), g, partner, cg.key)
@@ -142,12 +141,57 @@ def check(v, tier, only=None):
                 if not oa:
                     bad = 'the stand-alone expansion contains no item for %s' % g
                 elif oa != oc:
+                    if not only and len(v.violations) < 45:      # the comparison ran on hashed bodies: expand the two inputs once more in full for the report
+                        fa, fc = xp.expand_all(binary, [alone_src[ak], src])
+                        oa, oc = own_items(fa, g, partner), own_items(fc, g, partner)
                     bad = 'the items generated for %s differ when other traits are present:\n alone:    %s\n combined: %s' % (g, oa[:2], oc[:2])
             if bad:
                 case = Case(key, '// stand-alone:\n' + alone_src[ak] + '\n// combined:\n' + src, {'shape': shape.code(), 'group': g, 'own': cg.key,
                                                                                                  'others': [c.key for c in cfgs]}, run=False, depth=len(cfgs))
                 v.violation(case, bad)
+    # every Into(T) is a trait of its own: the impl of Into<T> must not depend on which other targets are requested, on their markers or on their order
+    if not only:
+        tg = ['u8', 'u16', 'u64', 'W']
+        decls = {'sn': 'struct Ty<A, B, C> {{ {0}a: A, {1}b: B, {2}c: C }}', 'st': 'struct Ty<A, B, C>({0}A, {1}B, {2}C);',
+                 'en': 'enum Ty<A, B, C> {{ V0({0}A, {1}B, {2}C), V1 {{ {2}x: C, {0}y: A, {1}z: B }} }}'}
+        fam = []
+        for dk, decl in decls.items():
+            for own in tg:
+                for k in (1, 2):
+                    for others in itertools.permutations([t for t in tg if t != own], k):
+                        for pos in range(k + 1):
+                            order = list(others[:pos]) + [own] + list(others[pos:])
+                            marks = ['#[educe(Into(%s))] ' % t for t in [own] + list(others)] + ['']
+                            alone = '#[derive(Educe)] #[educe(Into(%s))] %s' % (own, decl.format(marks[0], '', ''))
+                            comb = '#[derive(Educe)] #[educe(%s)] %s' % (', '.join('Into(%s)' % t for t in order), decl.format(marks[0], marks[1], marks[2] if k == 2 else ''))
+                            fam.append(('C15|into-targets|%s|%s|+%s|@%d' % (dk, own, '+'.join(others), pos), own, alone, comb))
+        ra = xp.expand_all(binary, [f_[2] for f_ in fam])
+        rc = xp.expand_all(binary, [f_[3] for f_ in fam])
+        canon_t = dict(zip(tg, xp.retokenise(binary, ['%s < %s >' % (K.TRAIT_SRC['Into'] if hasattr(K, 'TRAIT_SRC') and 'Into' in K.TRAIT_SRC else '::core::convert::Into', t) for t in tg])))
+        for (key, own, alone, comb), a, r in zip(fam, ra, rc):
+            if hash(key) in states:
+                continue
+            states.add(hash(key))
+            total_transitions += 2
+            v.cov['evaluations'] += 1
+            if a['st'] != 'ok':
+                continue
+            v.cov['traces_validated_against_impl'] += 1
+            pick = lambda res: sorted(xp.item_key(it) for it in res.get('items', []) if it['tr'] == canon_t[own])
+            bad = None
+            if r['st'] != 'ok':
+                bad = 'Into(%s) alone expands, but with other Into targets added it ends as %s: %s' % (own, r['st'], r.get('msg', '')[:200])
+            elif not pick(a):
+                bad = 'the stand-alone expansion contains no impl of Into<%s>' % own
+            elif pick(a) != pick(r):
+                bad = 'the impl of Into<%s> differs when other Into targets are requested:\n alone:    %s\n combined: %s' % (own, pick(a)[:1], pick(r)[:1])
+            else:
+                nontriv += 1
+            if bad:
+                v.violation(Case(key, '// stand-alone:\n' + alone + '\n// combined:\n' + comb, {'own': 'Into(%s)' % own}, run=False, depth=2), bad)
     if not only and conf_inputs:
+        conf_inputs = conf_inputs[:6000 if tier == 'quick' else 40000]
+        conf_res = xp.expand_all(binary, conf_inputs)
         realmacro.conformance(v, binary, conf_inputs, conf_res, limit=6000 if tier == 'quick' else 40000)
     v.cov['states'] = len(states)
     v.cov['transitions'] = total_transitions
@@ -160,6 +204,6 @@ def check(v, tier, only=None):
                     'group g in {Debug, Clone[+Copy], PartialEq[+Eq], PartialOrd[+Ord], Hash, Default, Deref, DerefMut, Into} with its own '
                     'configurations (one deviation per configuration in quick, full product in thorough) x every subset of the other groups at the '
                     'plain level and k<=2 (thorough 3) other groups with parameters of their own on the same fields, in both list orders and with '
-                    'one-list / one-attribute-per-meta splitting, with and without trailing commas; oracle: the impl items of g (by trait path; the inherent new() for Default) are '
+                    'one-list / one-attribute-per-meta splitting, with and without trailing commas; every Into(T) as a trait of its own (each target alone vs next to one or two other targets with their markers, every position in the list, on a generic named struct, tuple struct and enum); oracle: the impl items of g (by trait path; the inherent new() for Default) are '
                     'token-identical to those of the stand-alone expansion; non-trivial = the combined expansion contains items of other traits',
                     {'bounds': {'tier': tier, 'other_groups_with_parameters': 2 if tier == 'quick' else 3}})
